@@ -109,6 +109,7 @@ def predicate(c, recs):
             if kind == 'lseek': uses_table = True
             elif kind == 'fsyncdir': uses_table = not no_opendir
             else: uses_table = not no_open          # getattr/setattr(handle), fsync, flush, read, write, fallocate
+            if r.get('nohandle') and kind in ('getattr', 'setattr'): uses_table = False      # GETATTR / SETATTR without a handle: only the inode counts
             if uses_table and not pair and r['res'] != EBADF and not (kind == 'flush' and no_open):
                 return (k, 'handle-use', '%s with (inode %d, handle %d), a pair the client does not hold, answered %d instead of EBADF' % (kind, r['ino'], r['h'], r['res']))
             if uses_table and pair and r['res'] == EBADF and kind in ('lseek', 'fsync', 'fsyncdir', 'flush'):
@@ -129,6 +130,16 @@ def predicate(c, recs):
             return (k, 'fd-leak' if r['fds'] - fds0 > owned else 'fd-lost',
                     '%d descriptors beyond a fresh server, the tables account for %d' % (r['fds'] - fds0, owned))
     return None
+
+def read_setfl_probe_enabled():
+    """The probe of the unchanged code's READ defect (a READ whose flags word makes fcntl(F_SETFL) fail closes the
+    descriptor of the handle it was presented with; fixes/C15-read-closes-handle-fd.patch) is switched on by the
+    presence of its entry (status known, later fixed) in known_findings.d/C15.json: see notes/C15.md, audit 6."""
+    try:
+        return any(isinstance(k.get('signature'), dict) and k['signature'].get('kind') == 'read'
+                   for k in json.load(open(os.path.join(ROOT, 'known_findings.d', 'C15.json'))))
+    except Exception:
+        return False
 
 def configs(tier):
     cs = []
@@ -170,6 +181,11 @@ def run_check(tier, seed):
             'lookup 1 0 d1', 'opendir 0 1', 'readdir 1 0 4096 0 1', 'readdirplus 1 0 4096 last 100', 'releasedir 1 0', 'lookup 2 0 f', 'open 1 2',
             'use 2 1 lseek', 'use 1 1 lseek', 'release 1 1', 'release 2 1', 'release 2 1', 'create 3 2 0 newf 0', 'use 3 2 getattr',
             'opendir 3 0', 'readdir 0 3 4096 0 100', 'destroy', 'lookup 4 0 d2', 'opendir 4 4', 'readdir 4 4 4096 0 100', 'releasedir 4 4', 'forget 4 1']})
+    if read_setfl_probe_enabled():
+        for mode in ((0, 0), (1, 0)):
+            # judged by the predicate only: the model has no request that closes a descriptor its table still owns
+            cases.append({'mode': mode, 'no_open': 0, 'no_opendir': 0, 'probe': 'read-setfl', 'lines': [
+                'lookup 1 0 d1', 'opendir 0 1', 'use 1 0 read flags16384', 'use 1 0 lseek', 'lookup 2 0 f', 'releasedir 1 0']})
     res = c08.run_cases(bindir, cases, 'c15')
     evals = 0; shapes = set(); samples = []; exprs = []; idx = []; pred_fail = {}
     cut = 0
@@ -181,7 +197,13 @@ def run_check(tier, seed):
             findings.append({'what': 'request %d (%s) did not return within %d s' % (k, c['lines'][k] if k < len(c['lines']) else '?', hung[0]['seconds']),
                              'input': {'mode': c['mode'], 'no_open': c['no_open'], 'no_opendir': c['no_opendir'], 'lines': c['lines'][:k + 1]}, 'sig': {'check': 'hang'}})
             continue
-        if rc != 0 or len(recs) != len(c['lines']) + 1:
+        aborted = False
+        if rc != 0 and len(recs) > 1 and 'fatal runtime error' in out:
+            # the runtime ended the process (e.g. "IO Safety violation: owned file descriptor already closed"): judge what was
+            # observed up to there; if the predicate has nothing to say the abort itself is the finding
+            aborted = True
+            c = dict(c, lines=c['lines'][:len(recs) - 1])
+        elif rc != 0 or len(recs) != len(c['lines']) + 1:
             if 'panicked' in out:
                 # the server (or an assertion of the harness) panicked: a concrete failing input
                 findings.append({'what': 'the run panicked after request %d: %s' % (len(recs) - 1, ' '.join(out[out.find('panicked'):].split())[:300]),
@@ -203,10 +225,15 @@ def run_check(tier, seed):
             sig = {'op': r['op'], 'check': label}
             if r['op'] == 'create': sig.update(existed=bool(r['existed']), failed=r['res'] != 0)
             if label in ('fd-leak', 'fd-lost'): sig.update(ifh=c['mode'][0])
+            if r['op'] == 'use': sig.update(kind=r['kind'], rflags=r.get('rflags', -1), nohandle=bool(r.get('nohandle')))
             findings.append({'what': 'after request %d (%s): %s' % (k, c['lines'][k], detail), 'sig': sig,
                              'input': {'mode': c['mode'], 'no_open': c['no_open'], 'no_opendir': c['no_opendir'], 'lines': c['lines'][:k + 1]},
                              'observed': {x: r[x] for x in r if x != 'valid'}})
             pred_fail[ci] = k
+        elif aborted:
+            findings.append({'what': 'the server process was ended by the runtime after request %d (%s): %s' % (len(recs) - 2, c['lines'][-1], ' '.join(out[out.find('fatal runtime error'):].split())[:200]),
+                             'input': {'mode': c['mode'], 'no_open': c['no_open'], 'no_opendir': c['no_opendir'], 'lines': c['lines']}, 'sig': {'check': 'crash'}})
+            pred_fail[ci] = len(recs) - 2
         else:
             # quiescence: the generator ends these histories by releasing / forgetting everything
             last = recs[-1]
@@ -217,6 +244,7 @@ def run_check(tier, seed):
                     findings.append({'what': 'after releasing every handle and forgetting every inode the server keeps %d inode objects, %d handles, %d position records, %d descriptors (fresh: 1,0,0,%d)' % (sz[0], sz[3], sz[4], last['fds'], recs[0]['fds']),
                                      'sig': {'check': 'quiescence', 'ifh': c['mode'][0]}, 'input': c})
         if len(samples) < 3: samples.append({'cfg': [c['mode'], c['no_open'], c['no_opendir']], 'lines': c['lines'][:6], 'first_records': [{x: r[x] for x in r if x != 'valid'} for r in recs[1:3]]})
+        if c.get('probe') or aborted: continue
         try:
             exprs.append(model_expr(c, recs)); idx.append(ci)
         except Exception as ex:
